@@ -10,6 +10,7 @@ var verifHarnesses = map[string]func(){
 	"VerifC02StructArrays": VerifC02StructArrays,
 	"VerifC02Mixed":        VerifC02Mixed,
 	"VerifC02Prebound":     VerifC02Prebound,
+	"VerifC03Concurrent":   VerifC03Concurrent,
 	"VerifC03":             VerifC03,
 	"VerifOrderLemmas":     VerifOrderLemmas,
 }
